@@ -253,7 +253,9 @@ func mkRefCheck(id, rule string, assumptions []string, specs []*refSpec) *Check 
 
 const refRuleText = "pools of accepted in-domain versions (clusters, directed grammar generators, fixed vectors for every clause of the definition); " +
 	"every ordered pair of each pool is compared by the implementation and by an independent reference model; the model names the deciding clause " +
-	"(histogram in counters rule:*); a case is non-trivial when it is a distinct unordered pair of textually different in-domain versions (hashed, capped at 8M)"
+	"(histogram in counters rule:*); a case is non-trivial when it is a distinct unordered pair of textually different in-domain versions (hashed, capped at 8M). " +
+	"Volume first: 560 000 (thorough 2.2 M) distinct in-domain versions parsed and KEPT, kept objects at distances 1, 2, 2^8 .. 2^20 (+-1) and 60 sentinels parsed before the volume compared against the model afterwards; " +
+	"every other pool passes its objects through range membership (grammar ranges, table comparators, punctuation literals of the sources) before comparing (used objects); every eighth pool is an alignment ladder"
 
 // ---------------------------------------------------------------------------------------------
 
